@@ -274,3 +274,120 @@ Section Annual.
     - exact (mono_lin dg dg' xc xc' ex ex' cg up up' xi xi' gc pc k M1 M2 M3 G3 P3 K0 K1).
   Qed.
 End Annual.
+
+(** ** RER, when no cogeneration is declared for electricity *)
+Lemma ratio_mono (r n r' n' ro no : Qc) :
+  0 <= ro -> 0 <= no -> 0 <= r -> 0 <= n' -> r <= r' -> n' <= n -> 0 < ro + r + (no + n) -> 0 < ro + r' + (no + n') ->
+  (ro + r) / (ro + r + (no + n)) <= (ro + r') / (ro + r' + (no + n')).
+Proof.
+  intros. toQ. absQ. cbn in *.
+  apply Qle_shift_div_l; [lra|]. unfold Qdiv. rewrite <- Qmult_assoc, (Qmult_comm (/ _)), Qmult_assoc.
+  apply Qle_shift_div_r; [lra|]. nra.
+Qed.
+
+Section NoCogen.
+  Variables (c : Col) (d : Qc).
+  Hypothesis Hok : col_ok c.
+  Hypothesis Hel : el_col c.
+  Hypothesis Hd : 0 <= d.
+  Hypothesis Zpv : zg (c_pv c).
+  Hypothesis Zd : zg d.
+  Hypothesis C0 : c_chp c = 0.
+
+  (** without cogeneration, what the grid no longer delivers is exactly what more on-site production is used *)
+  Lemma step_grid_is_use_minus_pv :
+    s_del_grid (sr false c) = c_u c - s_used_src (sr false c) EL_INSITU
+    /\ s_del_grid (sr false (bump d c)) = c_u c - s_used_src (sr false (bump d c)) EL_INSITU.
+  Proof.
+    destruct Hok, Hel as [T E]. destruct c as [a1 a2 a3 a4 a5 u ne cg pv chp ts ea]; cbn in * |-. subst.
+    unfold s_del_grid, s_used_src, s_used, s_u, sr, bump.
+    cbn [fst snd step_out so_used so_src so_upv used_tot_f used_src_f fmatch c_u c_pv c_chp c_ts c_ea c_src].
+    unfold c_p. cbn [c_pv c_chp c_ts c_ea].
+    replace (pv + 0 + 0 + 0) with pv by ring. replace (pv + d + 0 + 0 + 0) with (pv + d) by ring.
+    assert (Zs : zg (pv + d)) by (apply zg_add; assumption).
+    split.
+    - destruct Zpv as [->|G].
+      + destruct (qltb_spec (qfrac 1 1000) 0) as [P|P]; [exfalso; qlra|]. qlra.
+      + destruct (qltb_spec (qfrac 1 1000) pv) as [P|P]; [|exfalso; qlra]. rewrite (div_self pv) by (intro; subst; qlra). ring.
+    - destruct Zs as [Z|G].
+      + rewrite Z. destruct (qltb_spec (qfrac 1 1000) 0) as [P|P]; [exfalso; qlra|]. qlra.
+      + destruct (qltb_spec (qfrac 1 1000) (pv + d)) as [P|P]; [|exfalso; qlra].
+        rewrite (div_self (pv + d)) by (intro K; rewrite K in G; qlra). ring.
+  Qed.
+End NoCogen.
+
+Section AnnualNoCogen.
+  Variables (data : list Energy) (i : Z) (dv : list Qc) (cm : str).
+  Let e := EProd i EL_INSITU dv cm.
+  Let data' := data ++ [e].
+  Let l := filter (has_carrier ELECTRICIDAD) data.
+  Hypothesis Hn : nonneg_data data.
+  Hypothesis Hd : dom_data data.
+  Hypothesis Hdn : Forall (fun v => 0 <= v) dv.
+  Hypothesis Hdz : Forall zg dv.
+  Hypothesis Hne : l <> [].
+  Hypothesis Hnc : existsb (is_prod_src EL_COGEN) l = false.
+  Let x := mk_ctx ELECTRICIDAD false data.
+  Let x' := mk_ctx ELECTRICIDAD false data'.
+  Let dt (t : nat) : Qc := nth t dv 0.
+
+  Lemma nc_prio : cx_prio x = false /\ cx_prio x' = false.
+  Proof.
+    unfold x, x', data', e. split; [rewrite (prio_x data)|rewrite (prio_x' data i dv cm)]; fold l; rewrite Hnc; [apply andb_false_r|reflexivity].
+  Qed.
+
+  Lemma nc_grid : a_del_grid x = a_epus x - a_used_src x EL_INSITU /\ a_del_grid x' = a_epus x - a_used_src x' EL_INSITU.
+  Proof.
+    destruct nc_prio as [P P']. unfold x, x', data', e in *.
+    unfold a_del_grid, a_epus, a_used_src. rewrite !(ann_x data), !(ann_x' data i dv cm Hne). fold l. rewrite P, P'.
+    split; rewrite <- qsum_map_sub; apply qsum_map_ext; intros t _.
+    - refine (proj1 (step_grid_is_use_minus_pv (col_at l t) (nth t dv 0) _ _ _ _ _)).
+      + apply (col_at_ok ELECTRICIDAD data t Hn). + apply (el_col_l data). + cbn. now apply colsum_zg. + apply nth_Forall; [exact Hdz|apply zg_0].
+      + cbn. apply colsum_absent. exact Hnc.
+    - refine (proj2 (step_grid_is_use_minus_pv (col_at l t) (nth t dv 0) _ _ _ _ _)).
+      + apply (col_at_ok ELECTRICIDAD data t Hn). + apply (el_col_l data). + cbn. now apply colsum_zg. + apply nth_Forall; [exact Hdz|apply zg_0].
+      + cbn. apply colsum_absent. exact Hnc.
+  Qed.
+
+  Lemma nc_exp_chp : a_exp_src x EL_COGEN = 0 /\ a_exp_src x' EL_COGEN = 0.
+  Proof.
+    destruct nc_prio as [P P']. unfold x, x', data', e in *.
+    unfold a_exp_src. rewrite (ann_x data), (ann_x' data i dv cm Hne). fold l. rewrite P, P'.
+    assert (C0 : forall t, c_chp (col_at l t) = 0) by (intros t; cbn; apply colsum_absent; exact Hnc).
+    split; apply qsum_map_zero; intros t _;
+      unfold s_exp_src, s_psrc, s_used_src, sr, bump;
+      cbn [fst snd step_out so_src so_uchp used_src_f c_src c_chp fmatch]; rewrite (C0 t);
+      match goal with |- context [if ?b then _ else _] => destruct b end; unfold Qcdiv; ring.
+  Qed.
+
+  Variables (fs : list Factor) (g phi : RNC) (k : Qc).
+  Hypothesis Hreg : regular fs ELECTRICIDAD (cx_srcs x) g (fsrc_reg phi).
+  Hypothesis Hreg' : regular fs ELECTRICIDAD (cx_srcs x') g (fsrc_reg phi).
+  Hypothesis Hg : rnc_nonneg g.
+  Hypothesis Hg1 : ren g <= 1.
+
+  (** without cogeneration, more on-site electricity does not lower the renewable primary energy of step A
+      (and does not raise the non-renewable one: pv_monotone_carrier) — so RER at k_exp = 0 does not go down *)
+  Theorem pv_ren_monotone_no_cogen :
+    exists p p', weighted_parts fs x = Ok p /\ weighted_parts fs x' = Ok p'
+      /\ ren (we_a (we_of_parts k p)) <= ren (we_a (we_of_parts k p')).
+  Proof.
+    destruct (carrier_closed fs ELECTRICIDAD false data g phi Hreg Hn Hd k) as (p & Wp & Ap & _).
+    destruct (carrier_closed fs ELECTRICIDAD false data' g phi Hreg' (nonneg_data' data i dv cm Hn Hdn) (dom_data' data i dv cm Hd Hdz) k)
+      as (p' & Wp' & Ap' & _).
+    exists p, p'. split; [exact Wp|]. split; [exact Wp'|].
+    rewrite Ap, Ap'. unfold NA, XCHP.
+    destruct nc_grid as [G G']. destruct nc_exp_chp as [X X'].
+    pose proof (used_pv_mono data i dv cm Hn Hd Hdn Hdz Hne) as M.
+    pose proof (cgnus_same data i dv cm Hne) as CS.
+    unfold x, x', data', e in *. rewrite (used_on_x data), (used_on_x' data i dv cm Hne).
+    rewrite G, G', X, X', CS. destruct Hg as (G1 & _).
+    revert M. generalize (a_used_src (mk_ctx ELECTRICIDAD false data) EL_INSITU)
+                         (a_used_src (mk_ctx ELECTRICIDAD false (data ++ [EProd i EL_INSITU dv cm])) EL_INSITU)
+                         (a_epus (mk_ctx ELECTRICIDAD false data)) (a_cgnus (mk_ctx ELECTRICIDAD false data)). intros up up' U cg M.
+    destruct g as [gr gn gc], phi as [pr pn pc]. cbn [ren nren co2 rsub radd rscale one] in *.
+    apply le_of_diff.
+    replace ((U - up') * gr + up' * 1 + cg * gr - 0 * pr - ((U - up) * gr + up * 1 + cg * gr - 0 * pr)) with ((up' - up) * (1 - gr)) by ring.
+    apply Qc_le_0_mul; qlra.
+  Qed.
+End AnnualNoCogen.
